@@ -1,5 +1,7 @@
 """C05 — Vary: a stored variant is only served to requests that select it."""
 import itertools
+import json
+import os
 import re
 
 from kv import Case, xn, xb, xl, xlist, xbool, xparse, xtext
@@ -13,10 +15,15 @@ PROFILES = ("dev",)
 
 RULE = ("histories through the real kvarn::handle_cache in process (component vary.run, harness/src/c05.rs on top of c00pipe.rs) and over one loopback "
         "HTTP/1.1 connection served by kvarn::handle_connection (component vary.wire, harness/src/c05wire.rs: what SendKind::send wrote). Hosts with 1-4 "
-        "pages, each with a vary rule set of 0-3 rules (header name incl. mixed-case and non-token names, transformation from the many-to-few menu "
+        "pages, each with a vary rule set of 0-3 rules (header name incl. mixed-case and non-token names and names equal to / pieces of / extensions "
+        "of the fixed part of the vary header: accept, range, accept-encoding, encoding, ran, accept-enc, e, x-accept ..., transformation from the many-to-few menu "
         "{lower-case, first-byte class lo/hi/none, length mod 3, constant} implemented in Rust and in Gallina, default incl. defaults equal to a class), "
         "registered under the exact path or under a pattern '<prefix>*' (longer pattern / exact path win), server cache preference Full or QueryMatters, "
-        "bodies below and above the 50-byte floor of the compressor, with and without the default extensions (Prime uri_redirect in front); served by a "
+        "bodies below and above the 50-byte floor of the compressor, with and without the default extensions (Prime uri_redirect in front); pages "
+        "served through an INTERNAL ROUTE (a Prime extension of the harness answers the public path, after the redirect, with '/./...' [+ query]; two "
+        "public paths share one internal page; the vary rules are registered on the internal path and the public path has a rule set of its own on other "
+        "headers; with the default extensions a foreign Origin is rerouted to /./cors_fail, which has a rule set, too), incl. requests suspended in "
+        "the handler while the internal item is cleared (the item-creating arm of handle_vary_missing); served by a "
         "counting handler that echoes its own transformed tuple (and the query on QueryMatters pages), on 'picky' pages declaring no server caching "
         "for some tuples (those variants must be recomputed by every request and never appear in a dump); requests GET/HEAD/POST whose rule headers are "
         "absent, present (same class / different class), empty, repeated with values of different classes, or not text (obs-text bytes), with "
@@ -34,7 +41,9 @@ RULE = ("histories through the real kvarn::handle_cache in process (component va
         "query) was computed since the last clear, with exactly one otherwise; a 304 is the answer exactly when the date is fresh AND the request's own "
         "tuple was computed since the last clear (a 304 for any other tuple is a violation), whatever the Range header; every 200/206 body is the "
         "rendering of the request's own transformed tuple; "
-        "every response with a body carries exactly one vary line 'accept-encoding, range' + the rule headers of the page, 416/404/400/406 included; "
+        "every response with a body carries exactly one vary line whose comma-separated elements are accept-encoding, range and then exactly the rule "
+        "headers of the path the page is cached under (the internal path of a route; compared by what is listed - a repeated accept-encoding/range "
+        "is not fixed by the property - the text itself is compared with the model), 416/404/403/400/406 included; "
         "no dumped vector holds two variants with equal lists, and every dump holds exactly the tuples computed and admitted since the last clear. distinct_nontrivial = histories that stored >= 3 variants on one page / wire histories "
         "with >= 2 different statuses")
 ASSUMPTIONS = [
@@ -46,8 +55,16 @@ ASSUMPTIONS = [
     "sanitize and carry no If-Modified-Since (theorem hypotheses; for QueryMatters pages and conditional requests the same is checked by the Python "
     "history oracle and by the correspondence, and follows from vector_refines_assoc_list + C03's theorems)",
     "rule sets are looked up through the model of extensions::RuleSet (Model/RuleSet.v, C14's subject; here exact paths and patterns of different "
-    "lengths); internal '/./' override URIs of Prime extensions are not modelled in Model/Vary.v (cache key and vary rules are then those of the override "
-    "URI, kvarn 9992768 / 95589fa: C03's subject, Model/CacheX.v, to which vector_refines_assoc_list connects the vector model for hosts without them)",
+    "lengths). Prime extensions are an arbitrary function request -> (rewritten request, optional internal override URI) in the theorems "
+    "(Extensions::resolve_prime; kvarn 9992768 / 95589fa: handler, cache keys and vary rules are those of the override URI); in the runs: the redirect "
+    "Prime and the CORS denial of Extensions::new() and one route-table Prime of the harness (cfg ovroutes), which runs last; the CORS preflight Prime "
+    "(OPTIONS + access-control-request-method) is never triggered",
+    "what the cache layer reads of a request's method and headers is modelled as read off the looked-up URI's request (lreq q: the request with path and "
+    "query replaced by the override's): route_keeps_method_and_headers proves that it carries the real request's method and headers, and "
+    "variant_of_the_cached_path restates the served-variant theorem in terms of the real request's headers",
+    "the handler of an internal route must not render the URI of the page it is served for (kvarn caches its response under the internal URI and "
+    "serves it to every public path routed there): the fixture's internal pages echo the transformed tuple only; vary_cache_transparent states this as "
+    "part of C03's handler contract",
     "HeaderMap::get(&str) for rule names longer than 64 bytes is modelled by the same normalisation as for shorter ones (not generated)",
     "content negotiation is abstract (C06): bodies are compared after decoding content-encoding with standard decoders (bodies above the 50-byte floor "
     "with accept-encoding are generated); streaming responses (a `future` in the reply) are not modelled: handle_cache skips apply_header for a stream "
@@ -58,6 +75,9 @@ ASSUMPTIONS = [
     "theorem (invariant, refinement of Model/CacheX.v, served_copy_is_held); exercised by pages whose handler (kind 6, harness/src/c05.rs) declares no "
     "server caching for some transformed tuples; the other reasons for a refusal (status filter, kvarn-cache-control, size, a query-dependent variant "
     "of a path-keyed item) need per-variant statuses/headers/preferences the fixture does not have: exercised by C04 (pipex.run)",
+    "SendKind::send learns the URI a response was cached under from the request's extensions (extensions::InternalUri, put there by handle_cache: kvarn "
+    "100c33a): a caller that hands send a different request than the one handle_cache saw gets the rules of that request's path on the 416 page "
+    "(kvarn's own callers pass the same request; not run otherwise)",
     "on the wire: wire_vary_advertised assumes that the operator's Package extensions leave `vary` alone (hypothesis; the ones of Extensions::new() do, "
     "observed); what send does besides (content-length, connection, version) is C08's subject and not in Model/VaryWire.v; the answers handle_connection "
     "gives before a host's page is consulted (429 of the limiter, 409 for an unknown host) carry no vary and are outside the property (they do not "
@@ -75,28 +95,39 @@ ASSUMPTIONS = [
     "only (pages that do not switch between the preferences QueryMatters and Full)",
 ]
 TRUSTED = ["modelled: src/vary.rs (Settings::add_rule's assertion, VariedResponse::{new,push_response,get,get_headers_for_request,get_by_request,first}, "
-           "get_header, apply_header, apply_header_from_settings, derived Ord of Header and Ord of slices), src/lib.rs handle_cache + "
+           "get_header, apply_header, apply_header_from_settings, derived Ord of Header and Ord of slices), src/extensions.rs resolve_prime as a function "
+           "request -> (request, override URI) (the fixture's: uri_redirect, Cors denial, the harness's route table), src/lib.rs handle_cache + "
            "handle_cache_helpers::{maybe_cache, get_cache, handle_vary_missing}, comprash::{server_cache_lifetime, MokaCache::insert} (as in Model/CacheX.v, "
            "with the variant vector instead of an association list), Collection::clear_page + extensions::uri_redirect_target (Model/Cache.v "
            "redirect_target), SendKind::send as far as status, body and vary go (Model/VaryWire.v: the body dropped after 1xx/204/304, a 304 not "
            "range-sliced, apply_to_response = Model/Range.v, the 416 replacement, resolve_package abstract, HEAD), extensions::RuleSet::{add_mut,get} (Model/RuleSet.v), rustc 1.95 slice::binary_search_by (Model/RustStd.v), http 1.5.0 "
            "HeaderMap::get(&str) name normalisation (HEADER_CHARS), HeaderValue::to_str; handlers/transformations are the fixture menu "
-           "(harness/src/c00pipe.rs = Model/Fixture.v, kind 5 in harness/src/c05.rs = Model/Vary.v compute_c05); the dump reads the field names "
+           "(harness/src/c00pipe.rs = Model/Fixture.v, kinds 5/6 and the route-table Prime in harness/src/c05.rs = Model/Vary.v compute_c05 / route_fix / "
+           "prime_fix, the CORS denial = Model/CacheX.v cors_override + Model/Vary.v cors_denied_fat); the dump reads the field names "
            "`name`/`transformed` and string literals out of VariedResponse's Debug output (nothing else of it; an unreadable dump is skipped and reported, "
            "never a verdict); the wire client of c05wire.rs (own framing by content-length)"]
-LEVEL_TEXT = ("Coq theorems, for all rule sets (any number of rules, names, transformations, defaults), all header values and all histories "
+LEVEL_TEXT = ("Coq theorems, for all rule sets (any number of rules, names, transformations, defaults), all header values, every behaviour of the "
+              "Prime extensions (any function request -> rewritten request + optional internal override URI: the page is handled, looked up and cached "
+              "under the override URI if there is one, and the rules are those of THAT path at both sites that create a cache item) and all histories "
               "(requests, page clears, clear-all, waits/expiry): vary_served_for_equal_tuple — by an inductive invariant on the cache (every variant "
               "vector strictly sorted for Rust's Ord on [Header], built with the page's rules, every stored response computed for a request of that page "
-              "with exactly the stored transformed list) no step panics and every reply is a stored response computed for a request with the same "
-              "path and an equal transformed list (or the bare 304 that vouches for such a stored response - never for another tuple), or the "
-              "response computed now for this very request; variants_sorted (no two entries with equal lists); "
+              "with exactly the stored transformed list) no step panics and every reply is a stored response computed for a request cached under the same "
+              "path with an equal transformed list (or the bare 304 that vouches for such a stored response - never for another tuple), or the "
+              "response computed now for this very request; variant_of_the_cached_path spells that out in terms of the real request's headers and the "
+              "rules of the path the response is cached under (route_keeps_method_and_headers: the looked-up URI differs from the request in path and "
+              "query only); variants_sorted (no two entries with equal lists); items_built_with_rules_of_their_path (after every history every "
+              "cache item holds the rules of the path it is stored under and lists made by those rules - whichever site created it); "
               "lookup_refines_map / insert_refines_map / lookup_never_wrong_variant (rustc 1.95 binary_search_by on the vector = finite map; exact match "
               "even on an unsorted vector); vary_refines_map — the server's observations and handler invocations equal those of a finite-map server "
               "(page, transformed list) -> response for every history when GET/HEAD responses are cacheable under the path key without expiry; "
-              "computed_once_per_tuple; default_applied; vary_header_eq (exact equation, rule order) for the reply of handle_cache and "
+              "computed_once_per_tuple (classes = path cached under x transformed list); default_applied; vary_header_eq (exact equation, rule order, "
+              "rules of the path cached under) and vary_lists_every_rule_header (every rule header - whatever its name, also a piece of "
+              "'accept-encoding, range' - is a whole element of the list after the fixed part) for the reply of handle_cache and "
               "wire_vary_advertised for what SendKind::send passes to the connection: for every history, every sanitize verdict and every range, each "
               "response with a non-empty body — the reply, a range cut out of it, or the 416 page that replaces it — carries vary: accept-encoding, "
-              "range, <rule headers>, given Package extensions that leave vary alone; send_keeps_vary (send without replacement never changes vary); "
+              "range, <rule headers of the path cached under>, given Package extensions that leave vary alone; "
+              "wire_416_internal_route_v0_refuted: before kvarn 100c33a the 416 page of an internal route listed the rule headers of the request's "
+              "own path (fixture history reproduced on the code + for every page); send_keeps_vary (send without replacement never changes vary); "
               "wire_not_modified_as_is (a 304 is sent as it is whatever the Range header, fix 9ae9b1a); "
               "wire_416_without_vary_v0_refuted: before the repair of send (fix 21f0154) the 416 page had no vary (fixture history reproduced on the "
               "code + for every page); stale_position_safe for the repaired handle_vary_missing (second half of a request against any "
@@ -110,8 +141,9 @@ LEVEL_TEXT = ("Coq theorems, for all rule sets (any number of rules, names, tran
               "date L is told 'not modified' on the strength of an entry not younger than L only while that entry holds f for its tuple; a pushed "
               "variant that is not admitted to the cache - fixes 8fe98d4, 92a9cd2 - leaves the cache as it was; premises: "
               "later requests happen after L, one cache key per URL); vector_refines_assoc_list + "
-              "vary_cache_transparent connect the vector model to Model/CacheX.v (C03/C04's model of the merged code, all repairs on) and C03's "
-              "transparency (now without the premise that query-dependence is uniform per path). Tied to the repo by the differential run of the "
+              "vary_cache_transparent connect the vector model to Model/CacheX.v (C03/C04's model of the merged code, all repairs on, now with its override "
+              "URI instantiated by the real one instead of 'none') and C03's "
+              "transparency (without the premise that query-dependence is uniform per path). Tied to the repo by the differential run of the "
               "real kvarn::handle_cache and of kvarn::handle_connection (loopback) against the extracted models (incl. the order of the stored vector), "
               "the finite-map spec oracle and an independent Python reading of the property on the implementation's output. Not proved: the composition of "
               "honest_not_modified_sound with the one-second arithmetic of the freshness test (C04); streaming replies.")
@@ -126,6 +158,11 @@ REPORT = [b"vary"]      # (the presence of last-modified is C04's subject: not c
 # ---- menus -------------------------------------------------------------------------------
 NAMES = [b"x-a", b"x-b", b"x-c", b"accept-language", b"x-a", b"x-b"]
 ODD_NAMES = [(b"X-Up", b"x-up"), (b"x bad", None), (b"x:y", None), (b"X-A", b"x-a")]   # (rule name, request header name or None)
+# rule headers whose names are equal to / pieces of / extensions of the two names every vary header starts with
+# ("accept-encoding, range"): each of them is a rule header like any other and has to be listed after the fixed part
+OVERLAP_NAMES = [b"accept", b"range", b"accept-encoding", b"encoding", b"x-accept", b"ran", b"accept-enc", b"Accept", b"e", b"Range",
+                 b"accept-encoding-x", b"ge"]
+RANGE_VALUES = [b"bytes=0-1", b"bytes=1-3", b"bytes=0-", b"en", b"zz", b"", b"bytes=2-1000", b"BYTES=0-1"]     # never start > end
 DEFAULTS = [b"dflt", b"lo", b"hi", b"0", b"", b"en", b"k", b"none", b"zz"]
 VALUES = {
     0: [b"en", b"EN", b"sv", b"Sv", b"de", b"fr", b"a", b"zz", b"", b"en-GB", b"b\tc", b"dflt"],
@@ -141,20 +178,26 @@ class Page:
     """one page: handler path, vary rules (rule name, xform, default, request header name or None), server cache
     preference (2 Full / 1 QueryMatters), body prefix, and the path or pattern its rule set is registered under"""
 
-    def __init__(self, path, rules, spref=2, prefix=None, rule_path=Ellipsis, echo=None, picky=False):
+    def __init__(self, path, rules, spref=2, prefix=None, rule_path=Ellipsis, echo=None, picky=False, echo_query=True, handler=True):
         self.path, self.rules, self.spref, self.prefix = path, rules, spref, prefix
+        self.echo_query = echo_query                    # QueryMatters pages: handler kind 5 (echoes the request's query)
+        self.handler = handler                          # False: a rule set only (the path is served by an extension of kvarn)
         self.picky = picky                              # handler kind 6: no server caching for some tuples
         self.rule_path = path if rule_path is Ellipsis else rule_path
         self.echo = rules if echo is None else echo     # what the handler renders (normally the rules' tuple)
 
 
-def gen_rules(rng, n=None):
+def gen_rules(rng, n=None, p_overlap=0.08):
     n = rng.choice([0, 1, 1, 2, 2, 2, 3, 3]) if n is None else n
     rules = []   # (rule name, xform, default, request header name or None)
     used = set()
     for _ in range(n):
-        if rng.random() < 0.15:
+        x = rng.random()
+        if x < 0.15:
             name, rq = rng.choice(ODD_NAMES)
+        elif x < 0.15 + p_overlap:
+            name = rng.choice(OVERLAP_NAMES)
+            rq = name.lower()
         else:
             name = rng.choice(NAMES)
             rq = name
@@ -167,10 +210,12 @@ def gen_rules(rng, n=None):
     return rules
 
 
-def rand_value(rng, xf):
+def rand_value(rng, xf, name=None):
     r = rng.random()
     if r < 0.12:
         return rng.choice(NONTEXT)
+    if name == b"range" and r < 0.7:
+        return rng.choice(RANGE_VALUES)       # (a range whose start is after its end fails sanitize: not a value of a rule header here)
     return rng.choice(VALUES[xf])
 
 
@@ -181,16 +226,16 @@ def rand_headers(rng, rules, p_absent=0.25, p_repeat=0.12, encodings=True):
             continue
         if rng.random() < p_absent:
             continue
-        v = rand_value(rng, xf)
+        v = rand_value(rng, xf, rq)
         hdrs.append((rq, v))
         if rng.random() < p_repeat:       # repeated header: get() returns the first value; the second is of another class
-            w = rand_value(rng, xf)
+            w = rand_value(rng, xf, rq)
             for _ in range(4):
                 if _xf(xf, w) != _xf(xf, v):
                     break
-                w = rand_value(rng, xf)
+                w = rand_value(rng, xf, rq)
             hdrs.append((rq, w))
-    if encodings and rng.random() < 0.15:
+    if encodings and rng.random() < 0.15 and not any(n == b"accept-encoding" for (n, _) in hdrs):
         hdrs.append((b"accept-encoding", rng.choice([b"gzip", b"br", b"identity", b"zstd, gzip"])))
     if rng.random() < 0.1:
         hdrs.append((b"x-unrelated", b"1"))
@@ -213,7 +258,8 @@ def as_pages(pages):
     return [p if isinstance(p, Page) else Page(p[0], p[1]) for p in pages]
 
 
-def config(pages, cache=True, default_ext=False, report=None):
+def config(pages, cache=True, default_ext=False, report=None, routes=None):
+    """routes: [(public path, internal target "/./..."[?query])] - the Prime extension of harness/src/c05.rs (cfg ovroutes)"""
     pages = as_pages(pages)
     hs, vs, seen = [], [], set()
     for i, pg in enumerate(pages):
@@ -223,12 +269,15 @@ def config(pages, cache=True, default_ext=False, report=None):
         # query is then visible in the body
         # picky pages (handler kind 6, harness/src/c05.rs): the handler declares no server caching for the tuples whose
         # first component is empty or starts with 'n', 'z', '0': variants that handle_vary_missing must not admit
-        hs.append(pipe.H(pg.path, kind=6 if pg.picky else 5 if pg.spref == 1 else 3, body=prefix, spref=pg.spref, tuple_=tup))
+        if pg.handler:
+            hs.append(pipe.H(pg.path, kind=6 if pg.picky else 5 if pg.spref == 1 and pg.echo_query else 3, body=prefix, spref=pg.spref,
+                             tuple_=tup))
         if pg.rule_path is not None and pg.rule_path not in seen and (pg.rules or i % 2 == 0 or pg.rule_path != pg.path):
             seen.add(pg.rule_path)
             vs.append(pipe.vary_rule(pg.rule_path, [(n, xf, d) for (n, xf, d, _) in pg.rules]))
+    extra = {"ovroutes": [xl(xb(a), xb(b)) for (a, b) in routes]} if routes else {}
     return pipe.cfg(cache=cache, default_ext=default_ext, handlers=hs, vary=vs, report=[xb(r) for r in (report or REPORT)],
-                    disable_ims=False)
+                    disable_ims=False, **extra)
 
 
 def dumps(pages):
@@ -458,11 +507,16 @@ def wire(rng):
         hdrs = [(n, v) for k, (n, v) in enumerate(hdrs) if n not in [m for (m, _) in hdrs[:k]]]     # (rules with the same header)
         y = rng.random()
         if x < 0.06:
-            pass        # (a range of an error page: the run compares error pages by class, not by text)
+            # (a range of an error page: the run compares error pages by class, not by text)
+            hdrs = [(n, v) for (n, v) in hdrs if n != b"range"]
         elif y < 0.4:
-            hdrs.append((b"range", rng.choice(RANGES)))
+            if not any(n == b"range" for (n, _) in hdrs):
+                hdrs.append((b"range", rng.choice(RANGES)))
         elif y < 0.5:
-            hdrs.append((b"accept-encoding", rng.choice([b"gzip", b"br", b"identity"])))
+            # (never together with a range: kvarn cuts the range out of the *coded* body - the selected representation -, which
+            # the harness cannot decode: C06 / C09's subject)
+            if not any(n in (b"accept-encoding", b"range") for (n, _) in hdrs):
+                hdrs.append((b"accept-encoding", rng.choice([b"gzip", b"br", b"identity"])))
         if rng.random() < 0.12:
             hdrs.append((b"if-modified-since", b"@T+100" if rng.random() < 0.7 else b"@T-100"))
         ops.append(pipe.req(target, method=rng.choice([b"GET", b"GET", b"GET", b"HEAD", b"POST"]), headers=hdrs,
@@ -497,7 +551,7 @@ def picky(rng, wire_=False):
         hdrs = list(rng.choice(pool))
         if rng.random() < 0.3:
             hdrs.append((b"if-modified-since", b"@T+100" if rng.random() < 0.8 else b"@T-100"))
-        if wire_ and rng.random() < 0.2:
+        if wire_ and rng.random() < 0.2 and not any(n == b"range" for (n, _) in hdrs):
             hdrs.append((b"range", rng.choice(RANGES)))
         ops.append(pipe.req(b"/v", method=rng.choice([b"GET", b"GET", b"GET", b"HEAD"]), addr=1 if wire_ else rng.randrange(1, 4), headers=hdrs))
         x = rng.random()
@@ -508,6 +562,123 @@ def picky(rng, wire_=False):
     if not wire_:
         ops += dumps(pages)
     return mk(cfg, ops, "picky-wire" if wire_ else "picky", spec=False, comp="vary.wire" if wire_ else "vary.run")
+
+
+def overlap(rng, wire_=False):
+    """rule headers named like (pieces of) the fixed part of the vary header - accept, range, accept-encoding, encoding, ran,
+    e ... -: each is advertised after "accept-encoding, range" like any other rule header (a rule on `range` or
+    `accept-encoding` itself is listed a second time: the code does not merge, and the property asks for the fixed part
+    plus each rule header), and selects variants like any other"""
+    first = rng.choice(OVERLAP_NAMES)
+    xf = rng.choice([0, 0, 1, 2])
+    rules = [(first, xf, rng.choice(DEFAULTS), first.lower())]
+    for r in gen_rules(rng, rng.choice([0, 1, 2]), p_overlap=0.4):
+        if r[0].lower() != first.lower():
+            rules.append(r)
+    rng.shuffle(rules)
+    pages = [Page(b"/v", rules, prefix=LONG if rng.random() < 0.2 else None)]
+    cfg = config(pages, report=WIRE_REPORT if wire_ else None)
+    reqs = request_set(rng, b"/v", rules, rng.randrange(3, 7), methods=(b"GET", b"GET", b"GET", b"HEAD"), p_query=0.0,
+                       p_repeat=0.0 if wire_ else 0.12, encodings=False)
+    if wire_:
+        ops = []
+        for r in reqs + [rng.choice(reqs) for _ in range(3)]:
+            hdrs = [(h[1][0][1], h[1][1][1]) for h in r[1][4][1]]
+            hdrs = [(n, v) for (n, v) in hdrs if v == v.strip(b" \t")]
+            hdrs = [(n, v) for k, (n, v) in enumerate(hdrs) if n not in [m for (m, _) in hdrs[:k]]]
+            if rng.random() < 0.3 and not any(n == b"range" for (n, _) in hdrs):
+                hdrs.append((b"range", rng.choice(RANGES)))
+            ops.append(pipe.req(b"/v", method=r[1][2][1], headers=hdrs))
+        return mk(cfg, ops, "overlap-wire", spec=False, comp="vary.wire")
+    second = list(reqs)
+    rng.shuffle(second)
+    return mk(cfg, history_ops(reqs, second, pages), "overlap")
+
+
+def internal_routes(rng, mode="run"):
+    """pages served through an internal route: a Prime extension (cfg ovroutes, harness/src/c05.rs) answers the public path
+    with an internal URI "/./..." - the request keeps its URI, the page is handled, looked up and cached under the internal
+    one, and the vary rules are those registered for the INTERNAL path (in the arm of handle_cache that creates the item
+    and in handle_vary_missing alike), not those of the public path (which has a rule set of its own, on other headers).
+    Two public paths may share one internal page; with the default extensions the redirect Prime runs first
+    ("/d/" -> "/d/index.html" -> "/./d") and a foreign `origin` is rerouted to "/./cors_fail" (rules on it are advertised)."""
+    wire_ = mode == "wire"
+    r_int = gen_rules(rng, rng.choice([1, 1, 2]), p_overlap=0.05)
+    while not any(rq for (_, _, _, rq) in r_int):
+        r_int = gen_rules(rng, rng.choice([1, 2]), p_overlap=0.05)
+    names = {r[0].lower() for r in r_int}
+    r_pub = [r for r in gen_rules(rng, rng.choice([0, 1, 1, 2]), p_overlap=0.05) if r[0].lower() not in names]
+    r_cors = gen_rules(rng, 1, p_overlap=0.0)
+    default_ext = rng.random() < 0.35
+    qm = rng.random() < 0.2 and mode != "spec"
+    internal = b"/./lang"
+    # (the handler of an internal route does not render the URI of the page it is served for: kvarn caches it under the internal URI)
+    pages = [Page(internal, r_int, spref=1 if qm else 2, prefix=LONG + b"I" if rng.random() < 0.15 else b"I", echo_query=False),
+             Page(b"/hi", r_pub, prefix=b"P"),
+             Page(b"/w", r_pub if rng.random() < 0.5 else r_int, prefix=b"W")]
+    publics = [b"/hi", b"/hej"]
+    routes = [(b"/hi", internal + (b"?x=1" if qm and rng.random() < 0.5 else b"")), (b"/hej", internal)]
+    if default_ext:
+        pages.append(Page(b"/./d", r_int, prefix=b"D"))
+        routes.append((b"/d/index.html", b"/./d"))
+        publics.append(b"/d/")
+        pages.append(Page(b"/./cors_fail", r_cors, handler=False))      # (a rule set only: kvarn's own handler answers)
+    cfg = config(pages, default_ext=default_ext, report=WIRE_REPORT if wire_ else None, routes=routes)
+    both = r_int + r_pub
+    pool = []
+    for t in publics + [b"/w"]:
+        pool += request_set(rng, t, both, rng.randrange(2, 5), methods=(b"GET", b"GET", b"GET", b"HEAD"), p_query=0.3 if qm else 0.05,
+                            p_repeat=0.0 if wire_ else 0.1, encodings=False)
+    if wire_:
+        clean = []
+        for r in pool:
+            hdrs = [(h[1][0][1], h[1][1][1]) for h in r[1][4][1]]
+            hdrs = [(n, v) for (n, v) in hdrs if v == v.strip(b" \t")]
+            hdrs = [(n, v) for k, (n, v) in enumerate(hdrs) if n not in [m for (m, _) in hdrs[:k]]]
+            if rng.random() < 0.35 and not any(n == b"range" for (n, _) in hdrs):
+                hdrs.append((b"range", rng.choice(RANGES)))
+            clean.append(pipe.req(r[1][3][1], method=r[1][2][1], headers=hdrs))
+        pool = clean
+    ops = []
+    for _ in range(rng.randrange(8, 18)):
+        x = rng.random()
+        r = rng.choice(pool)
+        if default_ext and x < 0.12:
+            hdrs = [(h[1][0][1], h[1][1][1]) for h in r[1][4][1]]
+            hdrs.append((b"origin", rng.choice([b"https://evil.example", b"https://evil.example", b"http://localhost"])))
+            r = pipe.req(r[1][3][1], method=r[1][2][1], headers=hdrs)
+        elif mode != "spec" and x < 0.22:
+            hdrs = [(h[1][0][1], h[1][1][1]) for h in r[1][4][1]]
+            hdrs.append((b"if-modified-since", b"@T+100" if rng.random() < 0.7 else b"@T-100"))
+            r = pipe.req(r[1][3][1], method=r[1][2][1], headers=hdrs)
+        ops.append(r)
+        y = rng.random()
+        if y < 0.05:
+            ops.append(pipe.clear_page(rng.choice([internal, b"/hi", internal + b"?x=1"])))
+        elif y < 0.12 and not wire_:
+            ops.append(dump(rng.choice([internal, b"/hi", internal + b"?x=1"]), len(r_int)))
+    if not wire_:
+        ops += [dump(internal, len(r_int)), dump(internal + b"?x=1", len(r_int)), dump(b"/hi", len(r_pub)), dump(b"/hej", 0)]
+        if default_ext:
+            ops.append(dump(b"/./d", len(r_int)))
+    return mk(cfg, ops, "internal-route" + ("-wire" if wire_ else ""), spec=(mode == "spec"), comp="vary.wire" if wire_ else "vary.run")
+
+
+def internal_interleaved(rng):
+    """a request to an internal route suspended in its handler while the item is cleared / another variant arrives: the arm of
+    handle_vary_missing that creates a new item takes the rules of the internal path, too"""
+    rules = [(b"x-a", 0, b"dflt", b"x-a")]
+    r_pub = [(b"x-b", 0, b"p", b"x-b")] if rng.random() < 0.6 else []
+    pages = [Page(b"/./v", rules, prefix=b"I"), Page(b"/v", r_pub, prefix=b"P")]
+    cfg = config(pages, routes=[(b"/v", b"/./v")])
+    vals = rng.sample([b"a", b"b", b"c", b"d", b"e", b"f"], 5)
+    R = lambda v: pipe.req(b"/v", headers=[(b"x-a", v), (b"x-b", rng.choice([b"m", b"n"]))])
+    pre = [R(v) for v in vals[:rng.randrange(1, 3)]]
+    mid = [pipe.clear_page(b"/./v")] if rng.random() < 0.6 else []
+    mid += [R(v) for v in vals[3:3 + rng.randrange(0, 2)]]
+    ops = pre + [park(b"/v", headers=[(b"x-a", vals[2]), (b"x-b", b"m")])] + mid + [release(), dump(b"/./v", 1), dump(b"/v", len(r_pub))]
+    ops += [R(v) for v in vals] + [dump(b"/./v", 1)]
+    return mk(cfg, ops, "internal-route-interleaved", spec=False)
 
 
 def malformed(rng):
@@ -611,6 +782,34 @@ def corpus_cases():
                            R(b"a", b"/nope"), R(b"a", b"/./v"), R(b"zz", more=[(b"if-modified-since", b"@T+100")]),
                            R(b"a", more=[(b"if-modified-since", b"@T+100"), RG(b"bytes=0-1")]), R(b"zz"), pipe.clear_page(b"/v"),
                            R(b"zz", method=b"POST")], "corpus-wire", spec=False, comp="vary.wire"))
+    # rule headers named like (pieces of) the fixed part of the vary header: each is advertised and selects variants (seeded C05-4:
+    # a "don't list it twice" filter by substring dropped accept, range, accept-encoding, encoding, ran, e ...)
+    for names in ([b"accept"], [b"range", b"x-a"], [b"accept-encoding", b"encoding"], [b"e", b"ran", b"accept-enc"]):
+        rules = [(n, 0, b"dflt", n) for n in names]
+        pages = [Page(b"/v", rules)]
+        cfg = config(pages)
+        reqs = [pipe.req(b"/v", headers=[(names[0], v)]) for v in (b"b", b"a", b"c")] + [pipe.req(b"/v")]
+        cases.append(mk(cfg, history_ops(reqs, list(reversed(reqs)), pages), "corpus-overlap"))
+    # an internal route: /hi and /hej are answered by a Prime with /./lang; the rules are those of /./lang in the arm that
+    # creates the item (seeded C05-6 took those of /hi there) and in handle_vary_missing; /hi's own rule header does not matter
+    r_int, r_pub = [(b"accept-language", 0, b"en", b"accept-language")], [(b"x-pub", 0, b"p", b"x-pub")]
+    pages = [Page(b"/./lang", r_int, prefix=b"I"), Page(b"/hi", r_pub, prefix=b"P")]
+    routes = [(b"/hi", b"/./lang"), (b"/hej", b"/./lang")]
+    cfg = config(pages, routes=routes)
+
+    def L(v, t=b"/hi", pub=b"m", more=(), method=b"GET"):
+        return pipe.req(t, method=method, headers=[(b"accept-language", v), (b"x-pub", pub)] + list(more))
+    DL = [dump(b"/./lang", 1), dump(b"/hi", 1)]
+    cases.append(mk(cfg, [L(b"sv"), L(b"de"), L(b"sv", pub=b"n"), L(b"de", t=b"/hej"), L(b"fr", t=b"/hej")] + DL +
+                    [L(b"fr"), pipe.clear_page(b"/hi"), L(b"sv"), pipe.clear_page(b"/./lang"), L(b"sv")] + DL, "corpus-internal-route"))
+    cases.append(mk(cfg, [L(b"sv"), park(b"/hi", headers=[(b"accept-language", b"de"), (b"x-pub", b"m")]), pipe.clear_page(b"/./lang"), release()] + DL +
+                    [L(b"de"), L(b"sv")] + DL, "corpus-internal-route", spec=False))
+    # ... and on the wire: the 416 page that replaces a variant of the internal route lists the rule header of /./lang
+    # (x-pub before kvarn 100c33a: wire_416_internal_route_v0_refuted)
+    cfgw = config(pages, routes=routes, report=WIRE_REPORT)
+    cases.append(mk(cfgw, [L(b"de"), L(b"de", more=[(b"range", b"bytes=100-200")]), L(b"de", more=[(b"range", b"bytes=0-1")]),
+                           L(b"sv", t=b"/hej", more=[(b"range", b"bytes=100-200")]), L(b"sv", method=b"HEAD")],
+                    "corpus-internal-route-wire", spec=False, comp="vary.wire"))
     return cases
 
 
@@ -632,6 +831,12 @@ def generate(rng, tier):
         cases += [interleaved(rng) for _ in range(30)]
         cases += [picky(rng) for _ in range(40)]
         cases += [picky(rng, True) for _ in range(12)]
+        cases += [overlap(rng) for _ in range(40)]
+        cases += [overlap(rng, True) for _ in range(12)]
+        cases += [internal_routes(rng, "spec") for _ in range(30)]
+        cases += [internal_routes(rng, "run") for _ in range(40)]
+        cases += [internal_routes(rng, "wire") for _ in range(20)]
+        cases += [internal_interleaved(rng) for _ in range(12)]
     else:
         cases += exhaustive_orders(rng, 2, "orders", 20)
         cases += exhaustive_orders(rng, 3, "orders", 60)
@@ -649,6 +854,12 @@ def generate(rng, tier):
         cases += [interleaved(rng) for _ in range(600)]
         cases += [picky(rng) for _ in range(1000)]
         cases += [picky(rng, True) for _ in range(300)]
+        cases += [overlap(rng) for _ in range(1000)]
+        cases += [overlap(rng, True) for _ in range(300)]
+        cases += [internal_routes(rng, "spec") for _ in range(800)]
+        cases += [internal_routes(rng, "run") for _ in range(1000)]
+        cases += [internal_routes(rng, "wire") for _ in range(400)]
+        cases += [internal_interleaved(rng) for _ in range(300)]
     return cases
 
 
@@ -664,6 +875,12 @@ def directed(rng, mismatches):
     cases += [wire(rng) for _ in range(200)]
     cases += [picky(rng) for _ in range(150)]
     cases += [picky(rng, True) for _ in range(40)]
+    cases += [overlap(rng) for _ in range(100)]
+    cases += [overlap(rng, True) for _ in range(30)]
+    cases += [internal_routes(rng, "spec") for _ in range(100)]
+    cases += [internal_routes(rng, "run") for _ in range(100)]
+    cases += [internal_routes(rng, "wire") for _ in range(40)]
+    cases += [internal_interleaved(rng) for _ in range(40)]
     return cases
 
 
@@ -694,6 +911,24 @@ def _dump_ok(i, s):
     return len(set(map(tuple, vec))) == len(vec) and sorted(vec) == sorted(seen) and len(set(map(tuple, seen))) == len(seen)
 
 
+def _canon_vary(x):
+    """a reply with its vary values reduced to what they advertise: a rule header that repeats accept-encoding or range (a
+    rule on one of the two) says nothing the fixed part does not say - listing it again or not is not fixed by the property"""
+    try:
+        if x[0] != "L" or len(x[1]) < 2 or x[1][1][0] != "L":
+            return x
+        hs = []
+        for h in x[1][1][1]:
+            n, v = h[1][0][1], h[1][1][1]
+            if n == b"vary":
+                el = v.split(b", ")
+                v = b", ".join(el[:2] + [e for e in el[2:] if e.lower() not in (b"accept-encoding", b"range")])
+            hs.append(("L", [("B", n), ("B", v)]))
+        return ("L", [x[1][0], ("L", hs)] + list(x[1][2:]))
+    except Exception:
+        return x
+
+
 def spec_ok(c, impl, spec):
     try:
         a, b = xparse(impl), xparse(spec)
@@ -706,7 +941,7 @@ def spec_ok(c, impl, spec):
         if o[1][0][1] == 4:
             if not _dump_ok(x, y):
                 return False
-        elif x != y:
+        elif x != y and _canon_vary(x) != _canon_vary(y):
             return False
     return True
 
@@ -766,6 +1001,11 @@ class _Cfg:
             f = h[1]      # a later handler for the same path replaces the earlier one
             self.pages[f[0][1]] = {"kind": f[1][1], "prefix": f[3][1], "spref": f[5][1],
                                    "tuple": [(t[1][0][1], t[1][1][1], t[1][2][1]) for t in f[9][1]]}
+        self.routes = []
+        for r in kv_.get(b"ovroutes", ("L", []))[1]:
+            to_path, to_q = _split(r[1][1][1])
+            if to_path.startswith(b"/./"):
+                self.routes.append((r[1][0][1], to_path, to_q))
         self.vary = []
         for r in kv_.get(b"vary", ("L", []))[1]:
             pat = r[1][0][1]
@@ -789,6 +1029,19 @@ class _Cfg:
             return path + b"index.html"
         return path
 
+    def lookup(self, path, q, hdrs):
+        """(path, query) of the URI the page is handled, looked up and cached under: the internal URI a Prime extension
+        answered with - the route table of cfg ovroutes (on the rewritten path), else with the default extensions the CORS
+        denial "/./cors_fail" for an `origin` that is not the request's own - or the request's (rewritten) URI"""
+        for (frm, to_path, to_q) in self.routes:
+            if frm == path:
+                return to_path, to_q
+        if self.default_ext and b"origin" in hdrs:
+            o = hdrs[b"origin"]
+            if not (_text(o) and o == b"http://" + hdrs.get(b"host", b"localhost")):
+                return b"/./cors_fail", None
+        return path, q
+
     def own(self, path, hdrs):
         out = []
         for (n, xf, d) in self.rules(path):
@@ -799,6 +1052,31 @@ class _Cfg:
 
     def vary_text(self, path):
         return b"accept-encoding, range" + b"".join(b", " + n for (n, _, _) in self.rules(path))
+
+    def vary_wrong(self, path, lines):
+        """The property fixes what the vary header lists, not its text: exactly one vary line; a comma-separated list that
+        starts with accept-encoding, range; every rule header of the page is an element of it (a rule on accept-encoding or
+        range itself is there already: listing it again, as the code does, or not is the same advertisement); nothing else
+        is.  (The text itself - order, repetition - is compared with the model.)  None = fine, else what is wrong."""
+        want = self.vary_text(path)
+        if lines == [want]:
+            return None
+        if len(lines) != 1:
+            return "%d vary lines" % len(lines)
+        names = [n for (n, _, _) in self.rules(path)]
+        if any(b"," in n for n in names):
+            return "vary %r, expected %r" % (lines[0], want)      # (a rule name with a comma: only the text can be compared)
+        elems = [e.strip(b" \t") for e in lines[0].split(b",")]
+        if [e.lower() for e in elems[:2]] != [b"accept-encoding", b"range"]:
+            return "vary %r does not start with accept-encoding, range" % lines[0]
+        low = [e.lower() for e in elems]
+        for n in names:
+            if n.lower() not in low:
+                return "rule header %r is not an element of vary %r" % (n, lines[0])
+        for e in low[2:]:
+            if e not in [n.lower() for n in names]:
+                return "vary %r lists %r, which is no rule header of the page" % (lines[0], e)
+        return None
 
     def refused(self, path, hdrs):
         """handler kind 6 (harness/src/c05.rs): no server caching when the first component the handler renders is empty or
@@ -903,17 +1181,19 @@ def _history_oracle(c, out, wire_):
         method, target = o[1][2][1], o[1][3][1]
         hdrs = _first_headers(o)
         path0, q = _split(target)
-        path = cf.prime(path0)
+        # `path`, `cq`: the URI the page is cached under (an internal route's: its rules, its handler, its cache keys);
+        # `q`: the query of the request itself (what a handler that echoes the query sees)
+        path, cq = cf.lookup(cf.prime(path0), q, hdrs)
         status, reported, body = x[1][0][1], x[1][1][1], x[1][2][1]
         log = x[1][-1][1]
         where = "request #%d %s %s %r: " % (n, method.decode(), target.decode("latin1"), sorted(hdrs.items()))
         # -- the vary header
         lines = [h[1][1][1] for h in reported if h[1][0][1] == b"vary"]
         want_vary = cf.vary_text(path)
-        if body != b"" and lines != [want_vary]:
-            return where + "non-empty response (status %d) with vary %r, expected %r" % (status, lines, want_vary)
-        if body == b"" and lines not in ([], [want_vary]):
-            return where + "response (status %d) with vary %r, expected none or %r" % (status, lines, want_vary)
+        if body != b"" or lines:
+            wrong = cf.vary_wrong(path, lines)
+            if wrong:
+                return where + "%sresponse (status %d): %s (expected %r)" % ("non-empty " if body != b"" else "", status, wrong, want_vary)
         ok, rg = _sanitize(path0, hdrs)
         if path not in cf.pages or not ok:
             if len(log) != 0 and not ok:
@@ -927,7 +1207,7 @@ def _history_oracle(c, out, wire_):
         # an item (kvarn 8fe98d4) - every request for it runs the handler
         refused = cf.refused(path, hdrs)
         if gh and cf.cache:
-            kpq, kp = ("pq", path, q), ("p", path)
+            kpq, kp = ("pq", path, cq), ("p", path)
             key = kpq if kpq in store else kp if kp in store else None
             if key is not None:
                 fresh = _ims_fresh(hdrs) if cf.ims else False
@@ -961,7 +1241,7 @@ def _history_oracle(c, out, wire_):
             if expect_calls == 0:
                 return where + "the handler was invoked although a response for the transformed tuple %r is stored" % (t,)
             return where + ("no handler invocation although no response for the transformed tuple %r (query %r) was computed since the last clear"
-                            % (t, q))
+                            % (t, cq))
         # -- what it says
         want = cf.rendering(path, q, hdrs)
         if wire_:
@@ -1012,7 +1292,7 @@ def extra_oracle(c, impl):
                 req, pending = pending, None
             if req is not None and c.comp == "vary.run" and x[0] == "L" and len(x[1]) == 6 and x[1][0][1] == 200:
                 path, q = _split(req[1][3][1])
-                path = cf.prime(path)
+                path, _ = cf.lookup(cf.prime(path), q, _first_headers(req))
                 if path in cf.pages:
                     want = cf.rendering(path, q, _first_headers(req))
                     if x[1][2][1] != want:
@@ -1077,52 +1357,14 @@ def describe(c):
     return {"component": c.comp, "kind": c.meta.get("kind"), "config": kv.pretty(c.x[1][0], 400), "ops": [kv.pretty(o, 120) for o in ops][:16]}
 
 
-THEOREM_PINS = [
-    ('vary_served_for_equal_tuple',
-     "forall (hstate : Type) (compute : hstate -> request -> bool -> fat * hstate * list bytes) (cache_on ims_on : bool) (parse_ims : bytes -> option Z) (sanitize_ok : request -> bool) (prime : request -> request) (negotiate : request -> fat -> option (N * bytes)) (rules_of : bytes -> list rule) (dbg : bool) (ops : list op) (c : vcache) (hs : hstate) (now : N), InvV hstate compute rules_of c -> exists (l : list (obs * list request)) (st' : vstate hstate) (now' : N), runV hstate compute cache_on ims_on parse_ims sanitize_ok prime negotiate rules_of dbg (c, hs) now ops = Ok l /\\ runV_state hstate compute cache_on ims_on parse_ims sanitize_ok prime negotiate rules_of dbg (c, hs) now ops = Ok (st', now') /\\ InvV hstate compute rules_of (fst st') /\\ Forall2 (obs_ok hstate compute ims_on prime negotiate rules_of) ops l"),
-    ('variants_sorted',
-     "forall (hstate : Type) (compute : hstate -> request -> bool -> fat * hstate * list bytes) (cache_on ims_on : bool) (parse_ims : bytes -> option Z) (sanitize_ok : request -> bool) (prime : request -> request) (negotiate : request -> fat -> option (N * bytes)) (rules_of : bytes -> list rule) (dbg : bool) (ops : list op) (hs : hstate) (now : N), exists (l : list (obs * list request)) (st' : vstate hstate) (now' : N), runV hstate compute cache_on ims_on parse_ims sanitize_ok prime negotiate rules_of dbg ([], hs) now ops = Ok l /\\ runV_state hstate compute cache_on ims_on parse_ims sanitize_ok prime negotiate rules_of dbg ([], hs) now ops = Ok (st', now') /\\ (forall (k : key) (e : ventry), pc_find k (fst st') = Some e -> Sorted.StronglySorted (fun p q : fat * hcoll => cmp_hcoll (snd p) (snd q) = Lt) (vr_resps (ve_var e)) /\\ NoDup (map snd (vr_resps (ve_var e))) /\\ vr_resps (ve_var e) <> [])"),
-    ('lookup_refines_map',
-     'forall (v : varied fat) (r : request), vsorted (vr_resps v) -> let t := headers_for_request (vr_refs v) r in (exists f : fat, vfind t (vr_resps v) = Some f /\\ In (f, t) (vr_resps v) /\\ vr_get_by_request v r = Ok (Hit (f, t))) \\/ vfind t (vr_resps v) = None /\\ (exists L G : list (fat * hcoll), vr_resps v = L ++ G /\\ vr_get_by_request v r = Ok (Miss (Datatypes.length L) t) /\\ Forall (fun q : fat * hcoll => hlt (snd q) t) L /\\ Forall (fun q : fat * hcoll => hlt t (snd q)) G)'),
-    ('insert_refines_map',
-     "forall (L G : list (fat * hcoll)) (f : fat) (t t' : hcoll), vsorted (L ++ G) -> Forall (fun q : fat * hcoll => hlt (snd q) t) L -> Forall (fun q : fat * hcoll => hlt t (snd q)) G -> vsorted (L ++ (f, t) :: G) /\\ vfind t' (L ++ (f, t) :: G) = (if hc_eqb t t' then Some f else vfind t' (L ++ G))"),
-    ('lookup_never_wrong_variant',
-     'forall (v : varied fat) (r : request) (p : fat * hcoll), vr_get_by_request v r = Ok (Hit p) -> In p (vr_resps v) /\\ snd p = headers_for_request (vr_refs v) r'),
-    ('vary_refines_map',
-     'forall (hstate : Type) (compute : hstate -> request -> bool -> fat * hstate * list bytes) (ims_on : bool) (parse_ims : bytes -> option Z) (sanitize_ok : request -> bool) (prime : request -> request) (negotiate : request -> fat -> option (N * bytes)) (rules_of : bytes -> list rule) (dbg : bool) (ops : list op) (hs : hstate) (now : N), always_stored hstate compute -> Forall (op_ok ims_on sanitize_ok prime) ops -> runV hstate compute true ims_on parse_ims sanitize_ok prime negotiate rules_of dbg ([], hs) now ops = Ok (spec_run hstate compute true ims_on prime negotiate rules_of [] hs ops)'),
-    ('computed_once_per_tuple',
-     'forall (hstate : Type) (compute : hstate -> request -> bool -> fat * hstate * list bytes) (ims_on : bool) (parse_ims : bytes -> option Z) (sanitize_ok : request -> bool) (prime : request -> request) (negotiate : request -> fat -> option (N * bytes)) (rules_of : bytes -> list rule) (dbg : bool) (ops : list op) (hs : hstate) (now : N), always_stored hstate compute -> Forall (op_ok ims_on sanitize_ok prime) ops -> Forall (gh_req prime) ops -> exists l : list (obs * list request), runV hstate compute true ims_on parse_ims sanitize_ok prime negotiate rules_of dbg ([], hs) now ops = Ok l /\\ NoDup (map (cls rules_of) (calls_of l)) /\\ (forall r0 : request, In (OReq r0) ops -> In (cls rules_of (prime r0)) (map (cls rules_of) (calls_of l)))'),
-    ('default_applied',
-     'forall (ref : rule) (r : request), (header_get (ru_name ref) r = None -> header_for ref r = (ru_name ref, ru_default ref)) /\\ (forall v : bytes, header_get (ru_name ref) r = Some v -> to_str_ok v = false -> header_for ref r = (ru_name ref, ru_default ref)) /\\ (forall v : bytes, header_get (ru_name ref) r = Some v -> to_str_ok v = true -> header_for ref r = (ru_name ref, ru_xf ref v))'),
-    ('vary_header_eq',
-     'forall (negotiate : request -> fat -> option (N * bytes)) (rules_of : bytes -> list rule) (r : request) (f : fat) (lm cached : bool), let rp := finishV negotiate r f (own_tuple rules_of r) lm cached in (rp_body rp <> [] -> assoc (B "vary") (rp_headers rp) = Some (B "accept-encoding, range" ++ concat (map (fun ru : rule => B ", " ++ ru_name ru) (rules_of (rq_path r))))) /\\ (rp_body rp = [] -> assoc (B "vary") (rp_headers rp) = match negotiate r f with | Some _ => None | None => assoc (B "vary") (f_headers f) end)'),
-    ('stale_position_safe',
-     "forall (hstate : Type) (compute : hstate -> request -> bool -> fat * hstate * list bytes) (cache_on ims_on : bool) (negotiate : request -> fat -> option (N * bytes)) (rules_of : bytes -> list rule) (dbg : bool) (c : vcache) (hs : hstate) (now : N) (p : parked), InvV hstate compute rules_of c -> parked_ok rules_of p -> exists (st' : vstate hstate) (rp : reply) (lg : list bytes), serveV_phase2 hstate compute cache_on ims_on negotiate rules_of dbg c hs now p = Ok (st', rp, lg, [parked_req p]) /\\ InvV hstate compute rules_of (fst st') /\\ own_reply hstate compute negotiate rules_of (parked_req p) rp /\\ snd st' = snd (fst (compute hs (parked_req p) (parked_flag p))) /\\ lg = snd (compute hs (parked_req p) (parked_flag p))"),
-    ('vector_refines_assoc_list',
-     'forall (hstate : Type) (compute : hstate -> request -> bool -> fat * hstate * list bytes) (cache_on ims_on : bool) (parse_ims : bytes -> option Z) (sanitize_ok : request -> bool) (prime : request -> request) (negotiate : request -> fat -> option (N * bytes)) (rules_of : bytes -> list rule) (dbg : bool), (forall (hs : hstate) (r : request) (ok : bool), assoc (B "vary") (f_headers (fst (fst (compute hs r ok)))) = None) -> forall (ops : list op) (cV : vcache) (c : cachex) (hs : hstate) (now : N), InvV hstate compute rules_of cV -> cache_rel rules_of cV c -> exists l : list (obs * list request), runV hstate compute cache_on ims_on parse_ims sanitize_ok prime negotiate rules_of dbg (cV, hs) now ops = Ok l /\\ map (fun oc : obs * list request => obx_of (fst oc)) l = runX hstate (computeX hstate compute) cache_on ims_on true true true true true true status_filter_drop parse_ims sanitize_ok prime no_override (negotiateX negotiate) (vary_tupleX rules_of) (vary_headerX rules_of) redirect_target (c, hs) now (map opx_of ops)'),
-    ('vary_cache_transparent',
-     'forall (hstate : Type) (compute : hstate -> request -> bool -> fat * hstate * list bytes) (ims_on : bool) (parse_ims : bytes -> option Z) (sanitize_ok : request -> bool) (prime : request -> request) (negotiate : request -> fat -> option (N * bytes)) (rules_of : bytes -> list rule) (dbg : bool), (forall (hs : hstate) (r : request) (ok : bool), assoc (B "vary") (f_headers (fst (fst (compute hs r ok)))) = None) -> forall cf : request -> bool -> fat, (forall (hs : hstate) (r : request) (ok : bool), fst (fst (compute hs r ok)) = cf r ok) -> (forall r r\' : request, get_or_head (rq_method r) = true -> get_or_head (rq_method r\') = true -> vary_tuple_of rules_of r = vary_tuple_of rules_of r\' -> rq_path r = rq_path r\' -> (qm (cf r true) = true -> path_query r = path_query r\') -> cf r true = cf r\' true) -> (forall r : request, f_spref (cf r false) = SP_NONE) -> forall (ops : list op) (hs hsU : hstate) (now : N), Forall (op_no_ims ims_on prime) ops -> exists l lU : list (obs * list request), runV hstate compute true ims_on parse_ims sanitize_ok prime negotiate rules_of dbg ([], hs) now ops = Ok l /\\ runV hstate compute false ims_on parse_ims sanitize_ok prime negotiate rules_of dbg ([], hsU) now ops = Ok lU /\\ Forall2 obs_equiv (map fst l) (map fst lU)'),
-    ('stale_position_v0_refuted',
-     '(run_vary_v0 stale_panic_history = XL [XN 2] /\\ run_vary stale_panic_history = stale_panic_history_out) /\\ run_vary_v0 stale_unsorted_history = stale_unsorted_history_out_v0 /\\ run_vary stale_unsorted_history = stale_unsorted_history_out'),
-    ('wire_vary_advertised',
-     'forall (hstate : Type) (compute : hstate -> request -> bool -> fat * hstate * list bytes) (cache_on ims_on : bool) (parse_ims : bytes -> option Z) (sanitize_ok : request -> bool) (prime : request -> request) (negotiate : request -> fat -> option (N * bytes)) (rules_of : bytes -> list rule) (dbg : bool) (package : request -> list (bytes * bytes) -> list (bytes * bytes)) (err416_body : bytes) (ops : list op) (c : vcache) (hs : hstate) (now : N), InvV hstate compute rules_of c -> (forall (r : request) (hs0 : list (bytes * bytes)), assoc (B "vary") (package r hs0) = assoc (B "vary") hs0) -> exists l : list (obs * list request), runV hstate compute cache_on ims_on parse_ims sanitize_ok prime negotiate rules_of dbg (c, hs) now ops = Ok l /\\ Forall2 (fun (o : op) (oc : obs * list request) => match o with | OReq r0 => match fst oc with | ObReply rp _ => forall (san : option (option (N * N))) (w : wreply), send_v rules_of package err416_body true (prime r0) san rp = Ok w -> w_body w <> [] -> assoc (B "vary") (w_headers w) = Some (B "accept-encoding, range" ++ concat (map (fun ru : rule => B ", " ++ ru_name ru) (rules_of (rq_path (prime r0))))) | _ => True end | _ => True end) ops l'),
-    ('send_keeps_vary',
-     'forall (rules_of : bytes -> list rule) (package : request -> list (bytes * bytes) -> list (bytes * bytes)) (err416_body : bytes) (fixed : bool) (r : request) (san : option (option (N * N))) (rp : reply) (w : wreply), (forall (r\' : request) (hs0 : list (bytes * bytes)), assoc (B "vary") (package r\' hs0) = assoc (B "vary") hs0) -> send_v rules_of package err416_body fixed r san rp = Ok w -> ~ (exists (rg : option (N * N)) (e : N), san = Some rg /\\ (rp_status rp =? 304) = false /\\ apply_range true rg (rp_status rp) (send_body rp) = Err e) -> assoc (B "vary") (w_headers w) = assoc (B "vary") (rp_headers rp) /\\ (w_body w <> [] -> rp_body rp <> [])'),
-    ('wire_not_modified_as_is',
-     'forall (rules_of : bytes -> list rule) (package : request -> list (bytes * bytes) -> list (bytes * bytes)) (err416_body : bytes) (fixed : bool) (r : request) (san : option (option (N * N))) (rp : reply), rp_status rp = 304 -> send_v rules_of package err416_body fixed r san rp = Ok {| w_status := 304; w_headers := package r (rp_headers rp); w_body := []; w_last_modified := rp_last_modified rp |}'),
-    ('not_modified_only_for_stored_variant',
-     'forall (hstate : Type) (compute : hstate -> request -> bool -> fat * hstate * list bytes) (cache_on ims_on : bool) (parse_ims : bytes -> option Z) (sanitize_ok : request -> bool) (prime : request -> request) (negotiate : request -> fat -> option (N * bytes)) (rules_of : bytes -> list rule) (dbg : bool) (c : vcache) (hs : hstate) (now : N) (r0 : request) (k : key) (e : ventry) (c1 : vcache), InvV hstate compute rules_of c -> cache_on = true /\\ ims_on = true /\\ vlookup (prime r0) c now = (k, Some e, c1) /\\ sanitize_ok r0 = true /\\ get_or_head (rq_method (prime r0)) = true /\\ (exists (v : bytes) (t : Z), header (B "if-modified-since") (prime r0) = Some v /\\ parse_ims v = Some t /\\ ims_fresh t (ve_created e) = true) -> (forall p : fat * hcoll, vr_get_by_request (ve_var e) (prime r0) = Ok (Hit p) -> serveV hstate compute cache_on ims_on parse_ims sanitize_ok prime negotiate rules_of dbg (c, hs) now r0 = Ok (c1, hs, {| rp_status := 304; rp_headers := []; rp_body := []; rp_identity := []; rp_last_modified := ims_on; rp_from_cache := true |}, [], [])) /\\ (forall (pos : nat) (hc : hcoll), vr_get_by_request (ve_var e) (prime r0) = Ok (Miss pos hc) -> exists (st\' : vstate hstate) (rp : reply) (lg : list bytes), serveV hstate compute cache_on ims_on parse_ims sanitize_ok prime negotiate rules_of dbg (c, hs) now r0 = Ok (st\', rp, lg, [prime r0]) /\\ own_reply hstate compute negotiate rules_of (prime r0) rp)'),
-    ('not_modified_same_entry_sound',
-     'forall (hstate : Type) (compute : hstate -> request -> bool -> fat * hstate * list bytes) (rules_of : bytes -> list rule) (c : vcache) (k : key) (e : ventry) (r r1 : request) (p : fat * hcoll), InvV hstate compute rules_of c -> pc_find k c = Some e -> kpath k = rq_path r -> rq_path r1 = rq_path r -> own_tuple rules_of r1 = own_tuple rules_of r -> vr_get_by_request (ve_var e) r1 = Ok (Hit p) -> vr_get_by_request (ve_var e) r = Ok (Hit p) /\\ snd p = own_tuple rules_of r'),
-    ('entry_changes_are_dated',
-     "forall (hstate : Type) (compute : hstate -> request -> bool -> fat * hstate * list bytes) (cache_on ims_on : bool) (parse_ims : bytes -> option Z) (sanitize_ok : request -> bool) (prime : request -> request) (negotiate : request -> fat -> option (N * bytes)) (rules_of : bytes -> list rule) (dbg : bool) (st : vstate hstate) (now : N) (o : op) (st' : vstate hstate) (now' : N) (ob : obs) (calls : list request), stepV hstate compute cache_on ims_on parse_ims sanitize_ok prime negotiate rules_of dbg st now o = Ok (st', now', ob, calls) -> forall k : key, pc_find k (fst st') = pc_find k (fst st) \\/ pc_find k (fst st') = None \\/ (exists e' : ventry, pc_find k (fst st') = Some e' /\\ ve_created e' = now)"),
-    ('wire_416_without_vary_v0_refuted',
-     '(run_vary_wire_v0 wire416_history = wire416_out_v0 /\\ run_vary_wire wire416_history = wire416_out) /\\ (forall (rules_of : bytes -> list rule) (err416_body : list N) (r : request), err416_body <> [] -> exists (rp : reply) (w : wreply), rp_body rp <> [] /\\ send_v rules_of (fun (_ : request) (hs : list (bytes * bytes)) => hs) err416_body false r (Some (Some (100, 201))) (finishV (fun (_ : request) (_ : fat) => None) r {| f_status := 200; f_headers := []; f_body := B "page"; f_spref := SP_FULL; f_compress := true |} (own_tuple rules_of r) true true) = Ok w /\\ rp = finishV (fun (_ : request) (_ : fat) => None) r {| f_status := 200; f_headers := []; f_body := B "page"; f_spref := SP_FULL; f_compress := true |} (own_tuple rules_of r) true true /\\ w_body w <> [] /\\ assoc (B "vary") (w_headers w) = None)'),
-    ('not_modified_only_for_stored_variant_v0_refuted',
-     '(run_vary_ims_v0 ims_history = ims_history_out_v0 /\\ run_vary ims_history = ims_history_out) /\\ (forall (hstate : Type) (cache_on ims_on : bool) (parse_ims : bytes -> option Z) (sanitize_ok : request -> bool) (prime : request -> request) (negotiate : request -> fat -> option (N * bytes)) (c : vcache) (hs : hstate) (now : N) (r0 : request) (k : key) (e : ventry) (c1 : vcache), cache_on = true /\\ ims_on = true /\\ vlookup (prime r0) c now = (k, Some e, c1) /\\ sanitize_ok r0 = true /\\ get_or_head (rq_method (prime r0)) = true /\\ (exists (v : bytes) (t : Z), header (B "if-modified-since") (prime r0) = Some v /\\ parse_ims v = Some t /\\ ims_fresh t (ve_created e) = true) -> serveV_phase1_v0 hstate cache_on ims_on parse_ims sanitize_ok prime negotiate (c, hs) now r0 = Ok (inl (c1, hs, {| rp_status := 304; rp_headers := []; rp_body := []; rp_identity := []; rp_last_modified := ims_on; rp_from_cache := true |}, [], [])))'),
-    ('honest_not_modified_sound',
-     "forall (hstate : Type) (compute : hstate -> request -> bool -> fat * hstate * list bytes) (cache_on ims_on : bool) (parse_ims : bytes -> option Z) (sanitize_ok : request -> bool) (prime : request -> request) (negotiate : request -> fat -> option (N * bytes)) (rules_of : bytes -> list rule) (dbg : bool) (L : N) (c2 : vcache) (hs2 : hstate) (t1 : N) (ops2 : list op) (c3 : vcache) (hs3 : hstate) (t3 : N) (r r' : request) (f : fat) (k : key) (e : ventry) (c3' : vcache), InvV hstate compute rules_of c2 -> pc_find (key_pq r) c2 = None \\/ pc_find (key_p r) c2 = None -> (exists (k0 : key) (e0 : ventry), (k0 = key_pq r \\/ k0 = key_p r) /\\ pc_find k0 c2 = Some e0 /\\ vr_get_by_request (ve_var e0) r = Ok (Hit (f, own_tuple rules_of r)) /\\ L <= ve_created e0) \\/ pc_find (key_pq r) c2 = None /\\ pc_find (key_p r) c2 = None -> later L t1 ops2 -> runV_state hstate compute cache_on ims_on parse_ims sanitize_ok prime negotiate rules_of dbg (c2, hs2) t1 ops2 = Ok (c3, hs3, t3) -> path_query r' = path_query r -> own_tuple rules_of r' = own_tuple rules_of r -> vlookup r' c3 t3 = (k, Some e, c3') -> ve_created e <= L -> vr_get_by_request (ve_var e) r' = Ok (Hit (f, own_tuple rules_of r'))"),
-    ('served_copy_is_held',
-     "forall (hstate : Type) (compute : hstate -> request -> bool -> fat * hstate * list bytes) (cache_on ims_on : bool), (request -> bool) -> (request -> request) -> forall (negotiate : request -> fat -> option (N * bytes)) (rules_of : bytes -> list rule) (dbg : bool), (forall (r : request) (c : vcache) (now : N) (k : key) (e : ventry) (c1 : vcache) (f : fat), vlookup r c now = (k, Some e, c1) -> vr_get_by_request (ve_var e) r = Ok (Hit (f, own_tuple rules_of r)) -> holds_copy rules_of c1 r f (ve_created e)) /\\ (forall (c1 : vcache) (hs' : hstate) (now : N) (r : request) (f : fat) (lg : list bytes) (lm_of : fat -> bool) (cached : bool) (st' : vstate hstate) (rp : reply) (lg' : list bytes) (calls : list request), may_store cache_on (rq_method r) f = true -> new_and_cache hstate cache_on negotiate rules_of dbg c1 hs' now r f lg lm_of cached = Ok (st', rp, lg', calls) -> holds_copy rules_of (fst st') r f now /\\ rp = finishV negotiate r f (own_tuple rules_of r) (lm_of f) cached) /\\ (forall (c : vcache) (hs : hstate) (now : N) (r : request) (ok : bool) (k : key) (e : ventry) (position : nat) (headers : hcoll) (st' : vstate hstate) (rp : reply) (lg : list bytes) (calls : list request), InvV hstate compute rules_of c -> k = key_pq r \\/ k = key_p r -> pc_find k c = Some e -> vfresh e now = true -> ve_created e <= now -> vr_get_by_request (ve_var e) r = Ok (Miss position headers) -> vary_missing hstate compute cache_on ims_on negotiate rules_of dbg c hs now r ok k position headers = Ok (st', rp, lg, calls) -> rp = finishV negotiate r (fst (fst (compute hs r ok))) (own_tuple rules_of r) ims_on true /\\ (if variant_accepted cache_on k r (fst (fst (compute hs r ok))) then holds_copy rules_of (fst st') r (fst (fst (compute hs r ok))) (ve_created e) else fst st' = c))"),
-]
-THEOREMS = THEOREM_PINS
+# the statements are pinned in driver/props/pins/C05.json (written by tools/mkpins.py C05 after a REVIEWED change of a statement)
+_PINS = json.load(open(os.path.join(os.path.dirname(os.path.abspath(__file__)), "pins", "C05.json")))
+THEOREMS = [(n, _PINS[n]) for n in (
+    "vary_served_for_equal_tuple", "variant_of_the_cached_path", "route_keeps_method_and_headers", "variants_sorted",
+    "items_built_with_rules_of_their_path",
+    "lookup_refines_map", "insert_refines_map", "lookup_never_wrong_variant", "vary_refines_map", "computed_once_per_tuple",
+    "default_applied", "vary_header_eq", "vary_lists_every_rule_header", "stale_position_safe", "vector_refines_assoc_list",
+    "vary_cache_transparent", "wire_vary_advertised", "send_keeps_vary", "wire_not_modified_as_is",
+    "not_modified_only_for_stored_variant", "not_modified_same_entry_sound", "entry_changes_are_dated",
+    "honest_not_modified_sound", "served_copy_is_held", "wire_416_without_vary_v0_refuted",
+    "wire_416_internal_route_v0_refuted", "not_modified_only_for_stored_variant_v0_refuted", "stale_position_v0_refuted")]
